@@ -61,8 +61,8 @@ def gen(ctx, deep):
             for b in ops:
                 jobs.append((cfg, window + [b]))
                 jobs.append((cfg, [("setrm",), b]))
-            for a in rng.sample(ops, 12):
-                for b in rng.sample(ops, 12):
+            for a in rng.sample(ops, 12 if deep else 8):
+                for b in rng.sample(ops, 12 if deep else 8):
                     if a[0] != "clear":  # clear_policy leaves the store behind: the reload would not be of a mirrored store
                         jobs.append((cfg, [a] + window + [b]))
                     jobs.append((cfg, [a, ("setrm",), b]))
@@ -76,7 +76,7 @@ def gen(ctx, deep):
                 jobs.append((cfg, [("setstore", {"p": P, "g": bad_g, "g2": G2}), ("load", None)] + after))
         for k in (0, 1, 2, 3):
             jobs.append((cfg, [("setstore", {"p": P, "g": G, "g2": G2}), ("load", k), ("add", "g", newg[0])]))
-        n = 1500 if not deep else 8000
+        n = 1000 if not deep else 8000
         ops_r = ops + [("setrm",)]
         for _ in range(n):
             cfg = ec.Config(shape, adapter=True, watcher=None, initial=rng.choice(inits))
